@@ -273,13 +273,13 @@ def ret_decl(r):
     if k == "cstr":
         return "const char *", ""
     if k == "cstr_len":
-        return "const char *", " +len(%d)" % r["N"]
+        return "const char *", " +len(%s)" % (r.get("lenexpr") or r["N"])          # lenexpr: the same length written as an expression
     if k == "str_val":
         return "const std::string", ""
     if k == "str_cref":
         return "const std::string &", ""
     if k == "str_cref_len":
-        return "const std::string &", " +len(%d)" % r["N"]
+        return "const std::string &", " +len(%s)" % (r.get("lenexpr") or r["N"])
     if k == "ptr_scalar":
         # without an attribute the documented default applies: a Fortran POINTER to the scalar; the C API keeps the pointer
         return "%s *" % r["T"], (" +deref(scalar)" if r.get("deref", "scalar") == "scalar" else "")
